@@ -61,6 +61,8 @@ spec fn tuple_idx_ok(len: nat, index: Value) -> bool {
 //@ contract If::signature
         ensures
             ret is Ok ==> (args@.len() >= 3 && type_spec(args@[1], ctx) == ret),
+            // accepted ==> the condition has static type Boolean (or Any)
+            ret is Ok ==> (type_spec(args@[0], ctx) is Ok && scalar_ok(type_spec(args@[0], ctx)->Ok_0, Type::Boolean)),
 //@ end
 //@ loop If::signature 0
                     invariant
@@ -76,6 +78,9 @@ spec fn tuple_idx_ok(len: nat, index: Value) -> bool {
                 Ok(Value::Boolean(c)) => ret == (if c { value_spec(args@[1], ctx) } else { value_spec(args@[2], ctx) }),
                 _ => ret is Err,
             },
+            // a condition of static type Boolean that evaluates never makes `if` fail by itself ("condition is not a boolean")
+            (type_spec(args@[0], ctx) is Ok && type_spec(args@[0], ctx)->Ok_0 == Type::Boolean && value_spec(args@[0], ctx) is Ok)
+                ==> (ret == value_spec(args@[1], ctx) || ret == value_spec(args@[2], ctx)),
 //@ end
 
 // ---------------------------------------------------------------- IsMemberOf
